@@ -77,7 +77,7 @@ contract(f'{TC}::create_trajectory_row', props=('C05',),
          modifies=[], modular=True, result_shape=None)
 from pyvc.contract import REGISTRY  # noqa: E402
 from .lookup import ROW  # noqa: E402
-REGISTRY[f'{TC}::create_trajectory_row'].result_shape = ROW
+REGISTRY[f'{TC}::create_trajectory_row'].result_shape = ROW.alternatives()[0]
 
 # ---------------------------------------------------------------------------------------
 SELF_SD = Obj(tc.TrajectoryCalc, stability_coefficient=Real(), twist=Real())
